@@ -123,7 +123,7 @@ def streams(pid, tier, rng, scale=1):
         if pid == 'C16': cnt = cnt // 8
         if pid == 'C17': cnt = cnt // 4
         # spelling / totality passes reuse the generators of the owning property; cap them per operation (the owning check runs them in full)
-        cap = {'C17': 20000, 'C16': 20000}.get(pid)
+        cap = {'C17': 20000, 'C16': 12000}.get(pid)
         if cap and tier == 'thorough': cap *= 3
         gen_ = cases_for(ty, n, args, cnt, rng, TYPES, op=op)
         if cap:
@@ -148,7 +148,7 @@ def px_streams(pid, tier, rng, scale):
     from .gen_inputs import interesting_posits, anyp, related_pair, triple, arg_of, structured_posit
     if pid not in ('C13', 'C14', 'C16', 'C10'): return []
     lines = []
-    per = {'C13': 400, 'C14': 150, 'C16': 40, 'C10': 60}[pid] * scale * (10 if tier == 'thorough' else 1)
+    per = {'C13': 400, 'C14': 150, 'C16': 25, 'C10': 60}[pid] * scale * (10 if tier == 'thorough' else 1)
     for ty in PX:
         for (op, args, ret, rust, lean, spec, prop) in px_ops(ty):
             if pid != 'C16' and prop != pid: continue
@@ -324,7 +324,7 @@ def extra_streams(pid, tier, rng, scale):
                         lines.append(qt + ' hist ' + ' '.join(' '.join(t) for t in trip))
     if pid in ('C14', 'C16', 'C17'):
         # Q32E2 with generic-width operands: PxE2<N>::from(&q), Quire<PxE2<N>>::to_posit, PxE2<N>::from(q) after a history
-        cntpx = {'C14': 600, 'C16': 120, 'C17': 120}[pid] * scale * big
+        cntpx = {'C14': 600, 'C16': 60, 'C17': 120}[pid] * scale * big
         for N in range(2, 33):
             for _ in range(cntpx):
                 lines.append(quire_history_px(N, rng))
